@@ -1,4 +1,4 @@
-(* C12 after fix <commit12> of /repo (Def::check compares the declared return type of `main` with i64):
+(* C12 after fix 5b8c76f of /repo (Def::check compares the declared return type of `main` with i64):
    the clause `the body of main has type i64` of the guard prog_tyguard need no longer be asked separately of a
    program that comes out of the checker.
      [prog_tyguard_src p]   prog_tyguard with EVERY definition - main included - treated alike: the annotated body has
